@@ -536,4 +536,350 @@ Section CodecProofs.
     match goal with |- context [Codec.rec_loop _ ?f ?r ?dd] => destruct (rec_loop_total f r dd) as [A B]; [lia|] end.
     destruct (Codec.rec_loop _ _ _ _); cbn [rbind]; split; try discriminate; congruence.
   Qed.
+
+  (* ================= checkpoint ================= *)
+  Definition chk_hdr_wf (h : chk_hdr) : Prop :=
+    lenN (ch_magic h) = 4 /\ ch_keys h < U64 /\ ch_ts h < U64 /\ ch_last h < U64 /\ ch_ck h < U32.
+  Definition chk_fields_of (h : chk_hdr) : bytes :=
+    chk_hdr_fields (ch_magic h) (ch_version h) (ch_flags h) (ch_keys h) (ch_ts h) (ch_last h).
+  (* the 48 header bytes with arbitrary padding (2) and reserved (12) bytes *)
+  Definition chk_hdr_image (h : chk_hdr) (pad rsv : bytes) : bytes :=
+    ch_magic h ++ [ch_version h; ch_flags h] ++ pad ++ le_enc 8 (ch_keys h) ++ le_enc 8 (ch_ts h)
+    ++ le_enc 8 (ch_last h) ++ rsv ++ le_enc 4 (ch_ck h).
+  Definition chk_hdr_valid (h : chk_hdr) : Prop :=
+    ch_magic h = CHECKPOINT_MAGIC /\ ch_version h = CHECKPOINT_VERSION /\ ch_ck h = crc (chk_fields_of h).
+
+  Lemma chk_hdr_bytes_eq : forall h, chk_hdr_bytes h = chk_hdr_image h [0; 0] (repeat 0 12).
+  Proof. reflexivity. Qed.
+  Lemma lenN_chk_hdr_image : forall h pad rsv, lenN (ch_magic h) = 4 -> lenN pad = 2 -> lenN rsv = 12 ->
+    lenN (chk_hdr_image h pad rsv) = 48.
+  Proof.
+    intros h pad rsv Hm Hp Hr. unfold chk_hdr_image. rewrite !lenN_app, !lenN_le_enc, Hm, Hp, Hr. reflexivity.
+  Qed.
+
+  Lemma chk_hdr_parse : forall h pad rsv, chk_hdr_wf h -> lenN pad = 2 -> lenN rsv = 12 ->
+    chk_hdr_from_buf (chk_hdr_image h pad rsv) = Ok h.
+  Proof.
+    intros h pad rsv (Hm & Hk & Ht & Hl & Hck) Hp Hr. unfold U32, U64 in *.
+    unfold chk_hdr_from_buf, chk_hdr_image.
+    rewrite (sliceN_app_head _ (ch_magic h)) by auto. cbn [or_panic rbind].
+    rewrite (indexN_skip (ch_magic h) _ 4 4) by (auto; lia). change (4 - 4) with 0.
+    rewrite indexN_app_l by (cbn; lia).
+    change (indexN 0 [ch_version h; ch_flags h]) with (Some (ch_version h)). cbn [or_panic rbind].
+    rewrite (indexN_skip (ch_magic h) _ 5 4) by (auto; lia). change (5 - 4) with 1.
+    rewrite indexN_app_l by (cbn; lia).
+    change (indexN 1 [ch_version h; ch_flags h]) with (Some (ch_flags h)). cbn [or_panic rbind].
+    rewrite (sliceN_skip _ (ch_magic h) _ 8 16 4) by (auto; lia). change (8 - 4) with 4. change (16 - 4) with 12.
+    rewrite (sliceN_skip _ [ch_version h; ch_flags h] _ 4 12 2) by (auto; lia). change (4 - 2) with 2. change (12 - 2) with 10.
+    rewrite (sliceN_skip _ pad _ 2 10 2) by (auto; lia). change (2 - 2) with 0. change (10 - 2) with 8.
+    rewrite (sliceN_app_head _ (le_enc 8 (ch_keys h))) by (now rewrite lenN_le_enc). cbn [or_panic rbind].
+    rewrite (sliceN_skip _ (ch_magic h) _ 16 24 4) by (auto; lia). change (16 - 4) with 12. change (24 - 4) with 20.
+    rewrite (sliceN_skip _ [ch_version h; ch_flags h] _ 12 20 2) by (auto; lia). change (12 - 2) with 10. change (20 - 2) with 18.
+    rewrite (sliceN_skip _ pad _ 10 18 2) by (auto; lia). change (10 - 2) with 8. change (18 - 2) with 16.
+    rewrite (sliceN_skip _ (le_enc 8 (ch_keys h)) _ 8 16 8) by (try rewrite lenN_le_enc; auto; lia). change (8 - 8) with 0. change (16 - 8) with 8.
+    rewrite (sliceN_app_head _ (le_enc 8 (ch_ts h))) by (now rewrite lenN_le_enc). cbn [or_panic rbind].
+    rewrite (sliceN_skip _ (ch_magic h) _ 24 32 4) by (auto; lia). change (24 - 4) with 20. change (32 - 4) with 28.
+    rewrite (sliceN_skip _ [ch_version h; ch_flags h] _ 20 28 2) by (auto; lia). change (20 - 2) with 18. change (28 - 2) with 26.
+    rewrite (sliceN_skip _ pad _ 18 26 2) by (auto; lia). change (18 - 2) with 16. change (26 - 2) with 24.
+    rewrite (sliceN_skip _ (le_enc 8 (ch_keys h)) _ 16 24 8) by (try rewrite lenN_le_enc; auto; lia). change (16 - 8) with 8. change (24 - 8) with 16.
+    rewrite (sliceN_skip _ (le_enc 8 (ch_ts h)) _ 8 16 8) by (try rewrite lenN_le_enc; auto; lia). change (8 - 8) with 0. change (16 - 8) with 8.
+    rewrite (sliceN_app_head _ (le_enc 8 (ch_last h))) by (now rewrite lenN_le_enc). cbn [or_panic rbind].
+    rewrite (sliceN_skip _ (ch_magic h) _ 44 48 4) by (auto; lia). change (44 - 4) with 40. change (48 - 4) with 44.
+    rewrite (sliceN_skip _ [ch_version h; ch_flags h] _ 40 44 2) by (auto; lia). change (40 - 2) with 38. change (44 - 2) with 42.
+    rewrite (sliceN_skip _ pad _ 38 42 2) by (auto; lia). change (38 - 2) with 36. change (42 - 2) with 40.
+    rewrite (sliceN_skip _ (le_enc 8 (ch_keys h)) _ 36 40 8) by (try rewrite lenN_le_enc; auto; lia). change (36 - 8) with 28. change (40 - 8) with 32.
+    rewrite (sliceN_skip _ (le_enc 8 (ch_ts h)) _ 28 32 8) by (try rewrite lenN_le_enc; auto; lia). change (28 - 8) with 20. change (32 - 8) with 24.
+    rewrite (sliceN_skip _ (le_enc 8 (ch_last h)) _ 20 24 8) by (try rewrite lenN_le_enc; auto; lia). change (20 - 8) with 12. change (24 - 8) with 16.
+    rewrite (sliceN_skip _ rsv _ 12 16 12) by (auto; lia). change (12 - 12) with 0. change (16 - 12) with 4.
+    rewrite sliceN_all by (now rewrite lenN_le_enc). cbn [or_panic rbind].
+    rewrite !le_dec_enc_u64, le_dec_enc_u32 by lia. destruct h; reflexivity.
+  Qed.
+
+  Lemma chk_hdr_validate_ok : forall h, chk_hdr_valid h -> chk_hdr_validate crc h = Ok tt.
+  Proof.
+    intros h (Hm & Hv & Hc). unfold chk_hdr_validate, chk_hdr_checksum. fold (chk_fields_of h).
+    rewrite Hm, Hv, Hc, bytes_eqb_refl, !N.eqb_refl. reflexivity.
+  Qed.
+
+  Lemma chk_open_image : forall h pad rsv rest, chk_hdr_wf h -> lenN pad = 2 -> lenN rsv = 12 ->
+    chk_open crc (chk_hdr_image h pad rsv ++ rest) = (do _ <- chk_hdr_validate crc h; Ok h).
+  Proof.
+    intros h pad rsv rest Hwf Hp Hr. pose proof Hwf as (Hm & _).
+    pose proof (lenN_chk_hdr_image h pad rsv Hm Hp Hr) as Lh.
+    unfold chk_open. rewrite chk_hs, lenN_app, Lh.
+    replace (48 + lenN rest <? 48) with false by (symmetry; apply N.ltb_ge; lia).
+    rewrite (sliceN_app_head _ (chk_hdr_image h pad rsv)) by auto. cbn [or_panic rbind].
+    rewrite chk_hdr_parse by auto. cbn [rbind]. reflexivity.
+  Qed.
+
+  (* body of a checkpoint: length field, data, footer (3 fields), then anything *)
+  Definition chk_body (n : N) (data : bytes) (dck dsz fck : N) (trailing : bytes) : bytes :=
+    le_enc 4 n ++ data ++ (le_enc 4 dck ++ le_enc 8 dsz ++ le_enc 4 fck) ++ trailing.
+
+  Lemma chk_validate_image : forall hb h data dck dsz fck trailing,
+    lenN hb = 48 -> lenN data < U32 -> dck < U32 -> dsz < U64 -> fck < U32 ->
+    chk_validate crc (hb ++ chk_body (lenN data) data dck dsz fck trailing) h =
+    if negb (fck =? crc (le_enc 4 dck ++ le_enc 8 dsz)) then Err EChecksum else
+    if N.odd (ch_flags h) then Err ECompression else
+    if negb (crc data =? dck) then Err EChecksum else
+    if negb (lenN data =? dsz) then Err EFormat else Ok tt.
+  Proof.
+    intros hb h data dck dsz fck trailing Hhb Hn Hdck Hdsz Hfck. unfold U32, U64 in *.
+    unfold chk_validate, chk_body. rewrite chk_hs, chk_fs.
+    set (ftr := le_enc 4 dck ++ le_enc 8 dsz ++ le_enc 4 fck).
+    assert (Lf : lenN ftr = 16) by (unfold ftr; rewrite !lenN_app, !lenN_le_enc; reflexivity).
+    assert (Li : lenN (hb ++ le_enc 4 (lenN data) ++ data ++ ftr ++ trailing) = 48 + 4 + lenN data + 16 + lenN trailing).
+    { rewrite !lenN_app, lenN_le_enc, Hhb, Lf. lia. }
+    rewrite Li.
+    replace (48 + 4 + lenN data + 16 + lenN trailing <? 48 + 4) with false by (symmetry; apply N.ltb_ge; lia).
+    rewrite (sliceN_app_mid _ hb (le_enc 4 (lenN data)) _ 48 (48 + 4)) by (try rewrite lenN_le_enc; auto; lia).
+    cbn [or_panic rbind]. rewrite le_dec_enc_u32 by lia.
+    replace (48 + 4 + lenN data + 16 + lenN trailing <? 48 + 4 + lenN data + 16) with false by (symmetry; apply N.ltb_ge; lia).
+    replace (hb ++ le_enc 4 (lenN data) ++ data ++ ftr ++ trailing)
+      with ((hb ++ le_enc 4 (lenN data) ++ data) ++ (ftr ++ trailing)) by (now rewrite <- !app_assoc).
+    rewrite (sliceN_app_tail _ (hb ++ le_enc 4 (lenN data) ++ data) (ftr ++ trailing))
+      by (rewrite !lenN_app, lenN_le_enc, ?Hhb, ?Lf; lia).
+    cbn [or_panic rbind]. rewrite lenN_app, Lf.
+    replace (16 + lenN trailing <? 16) with false by (symmetry; apply N.ltb_ge; lia).
+    assert (F1 : le_dec (takeN 4 (ftr ++ trailing)) = dck).
+    { unfold ftr. rewrite <- !app_assoc. rewrite takeN_app_exact' by (now rewrite lenN_le_enc).
+      apply le_dec_enc_u32; lia. }
+    assert (F2 : le_dec (takeN 8 (dropN 4 (ftr ++ trailing))) = dsz).
+    { unfold ftr. rewrite <- !app_assoc. rewrite dropN_app_exact' by (now rewrite lenN_le_enc).
+      rewrite takeN_app_exact' by (now rewrite lenN_le_enc). apply le_dec_enc_u64; lia. }
+    assert (F3 : le_dec (takeN 4 (dropN 12 (ftr ++ trailing))) = fck).
+    { unfold ftr.
+      replace ((le_enc 4 dck ++ le_enc 8 dsz ++ le_enc 4 fck) ++ trailing)
+        with ((le_enc 4 dck ++ le_enc 8 dsz) ++ le_enc 4 fck ++ trailing) by (now rewrite <- !app_assoc).
+      rewrite dropN_app_exact' by (now rewrite lenN_app, !lenN_le_enc).
+      rewrite takeN_app_exact' by (now rewrite lenN_le_enc). apply le_dec_enc_u32; lia. }
+    rewrite F1, F2, F3.
+    destruct (negb (fck =? crc (le_enc 4 dck ++ le_enc 8 dsz))); auto.
+    rewrite <- !app_assoc. rewrite (app_assoc hb (le_enc 4 (lenN data))).
+    rewrite (sliceN_app_mid _ (hb ++ le_enc 4 (lenN data)) data) by (rewrite lenN_app, lenN_le_enc, Hhb; lia).
+    cbn [or_panic rbind]. reflexivity.
+  Qed.
+
+  Lemma chk_load_image : forall hb h data rest,
+    lenN hb = 48 -> lenN data < U32 ->
+    chk_load deser_ok (hb ++ le_enc 4 (lenN data) ++ data ++ rest) h =
+    if N.odd (ch_flags h) then Err ECompression else if deser_ok data then Ok data else Err ESerial.
+  Proof.
+    intros hb h data rest Hhb Hn. unfold U32 in *. unfold chk_load. rewrite chk_hs.
+    assert (Li : lenN (hb ++ le_enc 4 (lenN data) ++ data ++ rest) = 48 + 4 + lenN data + lenN rest).
+    { rewrite !lenN_app, lenN_le_enc, Hhb. lia. }
+    rewrite Li.
+    replace (48 + 4 + lenN data + lenN rest <? 48 + 4) with false by (symmetry; apply N.ltb_ge; lia).
+    rewrite (sliceN_app_mid _ hb (le_enc 4 (lenN data)) _ 48 (48 + 4)) by (try rewrite lenN_le_enc; auto; lia).
+    cbn [or_panic rbind]. rewrite le_dec_enc_u32 by lia.
+    replace (48 + 4 + lenN data + lenN rest <? 48 + 4 + lenN data) with false by (symmetry; apply N.ltb_ge; lia).
+    replace (hb ++ le_enc 4 (lenN data) ++ data ++ rest) with ((hb ++ le_enc 4 (lenN data)) ++ data ++ rest)
+      by (now rewrite <- !app_assoc).
+    rewrite (sliceN_app_mid _ (hb ++ le_enc 4 (lenN data)) data) by (rewrite lenN_app, lenN_le_enc, Hhb; lia).
+    cbn [or_panic rbind]. reflexivity.
+  Qed.
+
+  (* a whole checkpoint image with arbitrary padding, reserved and trailing bytes *)
+  Definition chk_image (h : chk_hdr) (pad rsv data : bytes) (dck dsz fck : N) (trailing : bytes) : bytes :=
+    chk_hdr_image h pad rsv ++ chk_body (lenN data) data dck dsz fck trailing.
+
+  Lemma chk_read_image : forall h pad rsv data trailing,
+    chk_hdr_wf h -> chk_hdr_valid h -> N.odd (ch_flags h) = false ->
+    lenN pad = 2 -> lenN rsv = 12 -> lenN data < U32 -> deser_ok data = true ->
+    chk_read (chk_image h pad rsv data (crc data) (lenN data)
+                        (crc (le_enc 4 (crc data) ++ le_enc 8 (lenN data))) trailing) = Ok (h, data).
+  Proof.
+    intros h pad rsv data trailing Hwf Hv Hfl Hp Hr Hn Hd. pose proof Hwf as (Hm & _).
+    unfold Codec.chk_read, chk_image.
+    rewrite chk_open_image, chk_hdr_validate_ok by auto. cbn [rbind].
+    rewrite chk_validate_image by (auto using lenN_chk_hdr_image; try apply crc_u32; unfold U32, U64 in *; lia).
+    rewrite !N.eqb_refl, Hfl. cbn [negb rbind].
+    unfold chk_body. rewrite chk_load_image by (auto using lenN_chk_hdr_image).
+    now rewrite Hfl, Hd.
+  Qed.
+
+  Lemma chk_write_image : forall keys ts last data,
+    Codec.chk_write crc keys ts last data =
+    chk_image (chk_hdr_new crc keys ts last) [0; 0] (repeat 0 12) data (crc data) (lenN data)
+              (crc (le_enc 4 (crc data) ++ le_enc 8 (lenN data))) [].
+  Proof.
+    intros. unfold Codec.chk_write, chk_image, chk_body, chk_ftr_bytes. rewrite chk_hdr_bytes_eq.
+    now rewrite !app_nil_r.
+  Qed.
+  Lemma chk_hdr_new_wf : forall keys ts last, keys < U64 -> ts < U64 -> last < U64 ->
+    chk_hdr_wf (chk_hdr_new crc keys ts last) /\ chk_hdr_valid (chk_hdr_new crc keys ts last) /\
+    N.odd (ch_flags (chk_hdr_new crc keys ts last)) = false.
+  Proof.
+    intros. unfold chk_hdr_new, chk_hdr_wf, chk_hdr_valid, chk_hdr_checksum, chk_fields_of.
+    cbn [ch_magic ch_version ch_flags ch_keys ch_ts ch_last ch_ck]. repeat split; auto using crc_u32.
+  Qed.
+
+  Lemma checkpoint_roundtrip : forall keys ts last data,
+    keys < U64 -> ts < U64 -> last < U64 -> lenN data < U32 -> deser_ok data = true ->
+    chk_read (Codec.chk_write crc keys ts last data) = Ok (chk_hdr_new crc keys ts last, data).
+  Proof.
+    intros keys ts last data Hk Ht Hl Hn Hd. rewrite chk_write_image.
+    destruct (chk_hdr_new_wf keys ts last Hk Ht Hl) as (A & B & C).
+    apply chk_read_image; auto.
+  Qed.
+
+  (* every strict prefix (of the image without trailing bytes) is rejected by validate *)
+  Lemma chk_prefix_rejected : forall h pad rsv data dck dsz fck (k : nat),
+    chk_hdr_wf h -> chk_hdr_valid h -> lenN pad = 2 -> lenN rsv = 12 -> lenN data < U32 ->
+    let img := chk_image h pad rsv data dck dsz fck [] in
+    (k < length img)%nat -> chk_read (firstn k img) = Err ETooShort.
+  Proof.
+    intros h pad rsv data dck dsz fck k Hwf Hv Hp Hr Hn img Hk. pose proof Hwf as (Hm & _).
+    pose proof (lenN_chk_hdr_image h pad rsv Hm Hp Hr) as Lh.
+    assert (Lh' : length (chk_hdr_image h pad rsv) = 48%nat) by (unfold lenN in Lh; lia).
+    set (ftr := le_enc 4 dck ++ le_enc 8 dsz ++ le_enc 4 fck).
+    assert (Lf : length ftr = 16%nat) by (unfold ftr; rewrite !app_length, !le_enc_length; reflexivity).
+    assert (Li : length img = (48 + 4 + length data + 16)%nat).
+    { unfold img, chk_image, chk_body. fold ftr. rewrite !app_length, le_enc_length, Lh', Lf. cbn [length]. lia. }
+    unfold Codec.chk_read.
+    destruct (le_lt_dec 48 k) as [H48|H48].
+    - unfold img, chk_image. rewrite firstn_app_split by lia. rewrite Lh'.
+      rewrite chk_open_image, chk_hdr_validate_ok by auto. cbn [rbind].
+      unfold chk_validate. rewrite chk_hs, chk_fs.
+      assert (Lk : lenN (chk_hdr_image h pad rsv ++ firstn (k - 48) (chk_body (lenN data) data dck dsz fck [])) = N.of_nat k).
+      { rewrite lenN_app, Lh. unfold lenN. rewrite firstn_length.
+        unfold chk_body. fold ftr. rewrite !app_length, le_enc_length, Lf. cbn [length]. lia. }
+      rewrite Lk.
+      destruct (N.of_nat k <? 48 + 4) eqn:E52; [reflexivity|]. apply N.ltb_ge in E52.
+      unfold chk_body. rewrite firstn_app_split by (rewrite le_enc_length; lia). rewrite le_enc_length.
+      rewrite (sliceN_app_mid _ (chk_hdr_image h pad rsv) (le_enc 4 (lenN data)) _ 48 (48 + 4))
+        by (try rewrite lenN_le_enc; auto; lia).
+      cbn [or_panic rbind]. unfold U32 in Hn. rewrite le_dec_enc_u32 by lia.
+      replace (N.of_nat k <? 48 + 4 + lenN data + 16) with true; [reflexivity|].
+      symmetry. apply N.ltb_lt. unfold lenN. lia.
+    - unfold chk_open. rewrite chk_hs.
+      replace (lenN (firstn k img) <? 48) with true; [reflexivity|].
+      symmetry. apply N.ltb_lt. unfold lenN. rewrite firstn_length. lia.
+  Qed.
+
+  Lemma checkpoint_prefix_rejected : forall keys ts last data (k : nat),
+    keys < U64 -> ts < U64 -> last < U64 -> lenN data < U32 ->
+    (k < length (Codec.chk_write crc keys ts last data))%nat ->
+    chk_read (firstn k (Codec.chk_write crc keys ts last data)) = Err ETooShort.
+  Proof.
+    intros keys ts last data k Hk Ht Hl Hn Hlen. rewrite chk_write_image in *.
+    destruct (chk_hdr_new_wf keys ts last Hk Ht Hl) as (A & B & C).
+    apply chk_prefix_rejected; auto.
+  Qed.
+
+  (* damage inside checksum-covered regions *)
+  Lemma chk_data_corruption_rejected : forall h pad rsv data' dck dsz trailing,
+    chk_hdr_wf h -> chk_hdr_valid h -> N.odd (ch_flags h) = false ->
+    lenN pad = 2 -> lenN rsv = 12 -> lenN data' < U32 -> dck < U32 -> dsz < U64 ->
+    crc data' <> dck ->
+    chk_read (chk_image h pad rsv data' dck dsz (crc (le_enc 4 dck ++ le_enc 8 dsz)) trailing) = Err EChecksum.
+  Proof.
+    intros h pad rsv data' dck dsz trailing Hwf Hv Hfl Hp Hr Hn Hdck Hdsz Hne. pose proof Hwf as (Hm & _).
+    unfold Codec.chk_read, chk_image.
+    rewrite chk_open_image, chk_hdr_validate_ok by auto. cbn [rbind].
+    rewrite chk_validate_image by (auto using lenN_chk_hdr_image; apply crc_u32).
+    rewrite N.eqb_refl, Hfl. cbn [negb].
+    replace (crc data' =? dck) with false by (symmetry; now apply N.eqb_neq). reflexivity.
+  Qed.
+  Lemma chk_footer_corruption_rejected : forall h pad rsv data dck dsz fck trailing,
+    chk_hdr_wf h -> chk_hdr_valid h -> lenN pad = 2 -> lenN rsv = 12 ->
+    lenN data < U32 -> dck < U32 -> dsz < U64 -> fck < U32 ->
+    fck <> crc (le_enc 4 dck ++ le_enc 8 dsz) ->
+    chk_read (chk_image h pad rsv data dck dsz fck trailing) = Err EChecksum.
+  Proof.
+    intros h pad rsv data dck dsz fck trailing Hwf Hv Hp Hr Hn Hdck Hdsz Hfck Hne. pose proof Hwf as (Hm & _).
+    unfold Codec.chk_read, chk_image.
+    rewrite chk_open_image, chk_hdr_validate_ok by auto. cbn [rbind].
+    rewrite chk_validate_image by (auto using lenN_chk_hdr_image).
+    replace (fck =? crc (le_enc 4 dck ++ le_enc 8 dsz)) with false by (symmetry; now apply N.eqb_neq). reflexivity.
+  Qed.
+  Lemma chk_header_corruption_rejected : forall h' pad rsv rest,
+    chk_hdr_wf h' -> lenN pad = 2 -> lenN rsv = 12 ->
+    ch_ck h' <> crc (chk_fields_of h') ->
+    exists e, chk_read (chk_hdr_image h' pad rsv ++ rest) = Err e /\
+              (e = EMagic \/ e = EVersion \/ e = EChecksum).
+  Proof.
+    intros h' pad rsv rest Hwf Hp Hr Hne. unfold Codec.chk_read.
+    rewrite chk_open_image by auto.
+    unfold chk_hdr_validate, chk_hdr_checksum. fold (chk_fields_of h').
+    destruct (negb (bytes_eqb (ch_magic h') CHECKPOINT_MAGIC)); [exists EMagic; cbn; auto|].
+    destruct (negb (ch_version h' =? CHECKPOINT_VERSION)); [exists EVersion; cbn; auto|].
+    replace (ch_ck h' =? crc (chk_fields_of h')) with false by (symmetry; now apply N.eqb_neq).
+    exists EChecksum. cbn. auto.
+  Qed.
+
+  (* no panic on arbitrary bytes: open, validate, load - also load without validate *)
+  Lemma chk_open_total : forall img, chk_open crc img <> Panic.
+  Proof.
+    intros img. unfold chk_open. rewrite chk_hs.
+    destruct (lenN img <? 48) eqn:E; [discriminate|]. apply N.ltb_ge in E.
+    rewrite (sliceN_ok _ 0 48) by lia. cbn [or_panic rbind].
+    set (b := takeN (48 - 0) (dropN 0 img)).
+    assert (Lb : lenN b = 48) by (unfold b; rewrite lenN_takeN, lenN_dropN; lia).
+    unfold chk_hdr_from_buf.
+    rewrite (sliceN_ok _ 0 4), (sliceN_ok _ 8 16), (sliceN_ok _ 16 24), (sliceN_ok _ 24 32), (sliceN_ok _ 44 48) by lia.
+    unfold indexN. rewrite Lb. cbn [N.ltb N.compare Pos.compare Pos.compare_cont or_panic rbind].
+    unfold chk_hdr_validate. repeat (destruct (negb _); [discriminate|]). discriminate.
+  Qed.
+  Lemma chk_load_total : forall img h, chk_load deser_ok img h <> Panic.
+  Proof.
+    intros img h. unfold chk_load. rewrite chk_hs.
+    destruct (lenN img <? 48 + 4) eqn:E; [discriminate|]. apply N.ltb_ge in E.
+    rewrite (sliceN_ok _ 48 (48 + 4)) by lia. cbn [or_panic rbind].
+    destruct (lenN img <? _) eqn:E2; [discriminate|]. apply N.ltb_ge in E2.
+    rewrite sliceN_ok by lia. cbn [or_panic rbind].
+    destruct (N.odd _); [discriminate|]. destruct (deser_ok _); discriminate.
+  Qed.
+  Lemma chk_validate_total : forall img h, chk_validate crc img h <> Panic.
+  Proof.
+    intros img h. unfold chk_validate. rewrite chk_hs, chk_fs.
+    destruct (lenN img <? 48 + 4) eqn:E; [discriminate|]. apply N.ltb_ge in E.
+    rewrite (sliceN_ok _ 48 (48 + 4)) by lia. cbn [or_panic rbind].
+    destruct (lenN img <? _) eqn:E2; [discriminate|]. apply N.ltb_ge in E2.
+    rewrite (sliceN_ok _ _ (lenN img)) by lia. cbn [or_panic rbind].
+    destruct (_ <? 16); [discriminate|]. destruct (negb _); [discriminate|].
+    rewrite sliceN_ok by lia. cbn [or_panic rbind].
+    destruct (N.odd _); [discriminate|]. destruct (negb _); [discriminate|]. destruct (negb _); discriminate.
+  Qed.
+  Lemma chk_read_total : forall img,
+    chk_read img <> Panic /\ chk_read_unchecked crc deser_ok img <> Panic.
+  Proof.
+    intros img. unfold Codec.chk_read, chk_read_unchecked.
+    pose proof (chk_open_total img) as Ho.
+    destruct (chk_open crc img) as [h|e|]; cbn [rbind]; [|split; discriminate|congruence].
+    pose proof (chk_validate_total img h) as Hv. pose proof (chk_load_total img h) as Hl.
+    split.
+    - destruct (chk_validate crc img h) as [[]|e|]; cbn [rbind]; [|discriminate|congruence].
+      destruct (chk_load deser_ok img h); cbn [rbind]; [discriminate|discriminate|congruence].
+    - destruct (chk_load deser_ok img h); cbn [rbind]; [discriminate|discriminate|congruence].
+  Qed.
 End CodecProofs.
+
+(* ---------- concrete instances with the real CRC-32 ---------- *)
+(* Regression witness of the defect repaired by repo commit 929bfe5: two records, the second
+   imitating a footer for the first (its length, 24, is the CRC-32 of the first record, and its
+   bytes 16..20 are the footer magic).  Cutting the image 24 bytes into the second record used
+   to pass open + validate + read_all with one record instead of two. *)
+Definition wit_p0 : bytes := [1; 53; 184; 116].
+Definition wit_p1 : bytes := repeat 0 16 ++ [71; 69; 83; 82] ++ repeat 0 4.
+Definition wit_recs : list (N * bytes) := [(1, wit_p0); (2, wit_p1)].
+Definition wit_seg : bytes :=
+  match seg_write crc32 wit_recs with Ok b => b | _ => [] end.
+
+Lemma forged_footer_witness :
+  seg_write crc32 wit_recs = Ok wit_seg /\
+  (exists h, seg_read crc32 (fun _ => true) wit_seg = Ok (h, [wit_p0; wit_p1])) /\
+  (72 < length wit_seg)%nat /\
+  (* the cut image really ends in something that parses as a footer with a matching checksum *)
+  (exists s, seg_open crc32 (firstn 72 wit_seg) = Ok s /\ seg_validate crc32 s = Ok tt) /\
+  seg_read crc32 (fun _ => true) (firstn 72 wit_seg) = Err ETooShort.
+Proof.
+  split; [reflexivity|]. split; [eexists; vm_compute; reflexivity|]. split; [vm_compute; lia|].
+  split; [eexists; split; vm_compute; reflexivity|]. vm_compute. reflexivity.
+Qed.
+
+Lemma crc32_u32_on : forall d, In d [seg_records_bytes wit_recs] -> crc32 d < U32.
+Proof. intros d [<-|[]]. vm_compute. reflexivity. Qed.
+
+Lemma rec_wf_example : Forall (rec_wf (fun _ => true)) wit_recs /\ wit_recs <> [] /\ lenN wit_recs < U32.
+Proof. split; [|split; [discriminate|vm_compute; reflexivity]]. repeat constructor; vm_compute; reflexivity. Qed.
